@@ -13,7 +13,9 @@
      create (C06)  reply, etext, mem / disk = bitmap bytes of the created account in the running manager / in a
                    freshly loaded one (<<>> = no such account)
      kick (C06)    reply, closed, banned (address listed in the re-loaded ban file)
+                   pclosed (a protected bystander's connection was closed)
      rt (C16)      aload, bkeys, ball, cmem, cform, ckeys, creload, dauth, dwire (see harness/fam/authz/rt.go)
+     upd (C16)     reply, lwire, n354, uwire, dauth, disk: a live session whose account an administrator changes
 
    The line is applied to the model with the same action (Authz!Apply) the model check uses and the model's
    prediction is compared with the observation.  "VIOL {...}": the real observation contradicts what the
@@ -60,8 +62,10 @@ Fix(e) ==
                            rd |-> IF ChangedSet(e) = {} THEN "atomic" ELSE "partial"]
     [] e.op = "create" -> [op |-> "create", via |-> e.via, by |-> e.by, acc |-> SeqToSet(e.acc), login |-> e.login,
                            want |-> SeqToSet(e.want)]
-    [] e.op = "kick"   -> [op |-> "kick", acc |-> SeqToSet(e.acc), tacc |-> SeqToSet(e.tacc), ban |-> e.ban]
+    [] e.op = "kick"   -> [op |-> "kick", acc |-> SeqToSet(e.acc), tacc |-> SeqToSet(e.tacc), ban |-> e.ban,
+                           third |-> e.third, pacc |-> SeqToSet(e.pacc)]
     [] e.op = "rt"     -> [op |-> "rt", S |-> SeqToSet(e.S)]
+    [] e.op = "upd"    -> [op |-> "upd", via |-> e.via, S |-> SeqToSet(e.S), old |-> SeqToSet(e.old)]
     [] OTHER -> [op |-> "unknown"]
 
 P(kind, prop, what, detail) == [kind |-> kind, prop |-> prop, what |-> what, detail |-> detail]
@@ -126,7 +130,8 @@ CreateProblems(e, s, mrep, maccts) ==
 
 KickProblems(e, s, mlive, mbanned) ==
   LET prot == 23 \in s.tacc
-      d == [acc |-> s.acc, tacc |-> s.tacc, ban |-> s.ban, reply |-> e.reply, closed |-> e.closed, banned |-> e.banned]
+      d == [acc |-> s.acc, tacc |-> s.tacc, ban |-> s.ban, third |-> s.third, reply |-> e.reply, closed |-> e.closed,
+            banned |-> e.banned, pclosed |-> e.pclosed]
   IN
   (IF prot /\ e.closed THEN <<P("VIOL", "C06", "protected-user-disconnected", d)>> ELSE <<>>)
   \o (IF prot /\ e.banned THEN <<P("VIOL", "C06", "protected-user-banned", d)>> ELSE <<>>)
@@ -134,6 +139,10 @@ KickProblems(e, s, mlive, mbanned) ==
           THEN <<P("VIOL", "C05", "disconnect-without-privilege", d)>> ELSE <<>>)
   \o (IF ~prot /\ 22 \in s.acc /\ (e.closed # ("other" \notin mlive) \/ e.banned # ("other" \in mbanned))
           THEN <<P("DRIFT", "C06", "disconnect outcome differs from the model", d)>> ELSE <<>>)
+  \o (IF s.third # "none" /\ 23 \in s.pacc /\ e.pclosed
+          THEN <<P("VIOL", "C06", "protected-bystander-disconnected", [d EXCEPT !.tacc = s.pacc])>> ELSE <<>>)
+  \o (IF s.third # "none" /\ 23 \notin s.pacc /\ e.pclosed # ("prot" \notin mlive)
+          THEN <<P("DRIFT", "C06", "bystander outcome differs from the model", d)>> ELSE <<>>)
 
 (* ---- C16 -------------------------------------------------------------------- *)
 Diff(got, want) == [missing |-> want \ got, extra |-> got \ want]
@@ -166,6 +175,30 @@ RtProblems(e, s) ==
   \o (IF e.nwire # 1 THEN <<P("DRIFT", "C16", "user-access transactions at login", [n |-> e.nwire])>> ELSE <<>>)
   \o (IF ToBytes(S) # e.bytes THEN <<P("DRIFT", "C16", "script bytes are not ToBytes(S)", [b |-> e.bytes])>> ELSE <<>>)
 
+(* a live session's account is changed by an administrator *)
+UpdProblems(e, s) ==
+  LET S == s.S
+      SD == S \cap Defined
+      told == e.n354 > 0 /\ Len(e.uwire) = 8
+      uW == IF told THEN FromBytes(e.uwire) ELSE {-1}
+      lW == IF Len(e.lwire) = 8 THEN FromBytes(e.lwire) ELSE {-1}
+      dA == SeqToSet(e.dauth)
+      dK == IF Len(e.disk) = 8 THEN FromBytes(e.disk) ELSE {-1}
+      V(what, got, want) == IF got # want THEN <<P("VIOL", "C16", what, Diff(got, want))>> ELSE <<>>
+      D(what, got, want) == IF got # want THEN <<P("DRIFT", "C16", what, Diff(got, want))>> ELSE <<>>
+  IN
+  IF e.reply # "ok" \/ ~e.live
+    THEN <<P("DRIFT", "C16", "the account change did not run as intended", [reply |-> e.reply, live |-> e.live])>>
+    ELSE
+      (IF told THEN V("update-wire", uW \cap Defined, SD)           \* what the session is told = the new set
+                    \o V("update-wire-vs-authorize", uW, dA)         \* ... = what is decided for it from now on
+                    \o D("undefined bits in the update notice", uW \ Defined, S \ Defined)
+               ELSE V("stale-wire-vs-authorize", lW, dA))            \* not told anything: still what it was told at login
+      \o V("update-file", dK, SD)                                     \* the file says the new set
+      \o V("login-wire", lW \cap Defined, s.old \cap Defined)
+      \o (IF s.via = 353 /\ ~told THEN <<P("DRIFT", "C16", "no user-access notice after Set User", [n |-> e.n354])>> ELSE <<>>)
+      \o (IF ToBytes(S) # e.bytes THEN <<P("DRIFT", "C16", "script bytes are not ToBytes(S)", [b |-> e.bytes])>> ELSE <<>>)
+
 (* ---- the trace machine ------------------------------------------------------- *)
 Report(p, e) ==
   PrintT(p.kind \o " " \o ToJson([prop |-> p.prop, what |-> p.what, run |-> e.run, line |-> l, op |-> e.op,
@@ -192,6 +225,7 @@ ApplyEv ==
                               [] s.op = "create" -> CreateProblems(e, s, rep', accts')
                               [] s.op = "kick"   -> KickProblems(e, s, live', banned')
                               [] s.op = "rt"     -> RtProblems(e, s)
+                              [] s.op = "upd"    -> UpdProblems(e, s)
                IN \A i \in DOMAIN probs : Report(probs[i], e)
   /\ ph' = "reset" /\ l' = l + 1
   /\ TLCSet(1, l')
